@@ -81,7 +81,8 @@ def d2(chk, prog):
     ok_flags = {k: False for k in FLAGBITS}
     cases = [("positions straddling both edges", 100, 200, [[98, 99, 100, 101], [198, 199, 200, 201]], 4),
              ("no read", 100, 200, [], 0), ("zero-width bin", 100, 100, [[99, 100, 101]], None), ("reversed bin", 200, 100, [[150]], None),
-             ("one base", 100, 101, [[100], [100, 101]], 2)]
+             ("one base", 100, 101, [[100], [100, 101]], 2),
+             ("spliced / deleted-gap read: the gap is not aligned", 100, 200, [[110, 111, 112, 170, 171], [98, 99, 150, 151, 199, 200]], 8)]
     for label, s, e, poslists, bases in cases:
         W.reset()
         it = Interp(prog)
@@ -245,25 +246,6 @@ def d5(chk, prog):
             chk.violate("ordered-fanout", f"{fi.qn}::{norm(n.func)}", fi.loc(n), "completion-order consumption of pool results")
     for fi, n in here:
         chk.decide(n.func.attr == "map", "ordered-fanout", f"{fi.name}: pool.{n.func.attr}({norm(n.args[0]) if n.args else ''})", f"{fi.qn}::pool.{n.func.attr}", fi.loc(n), f"pool.{n.func.attr} does not preserve submission order")
-    for qn, wrapper, leaf in ((f"{COV}.interval_coverages_count", "_rdc", "_rdc_chunk"), (f"{COV}.interval_coverages_pileup", "_bedcov", "bedcov")):
-        fi = prog.fn(qn)
-        ifs = [n for n in own_nodes(fi.node) if isinstance(n, ast.If) and norm(n.test) == "procs == 1" and n.orelse]
-        if len(ifs) != 1:
-            raise AnalysisError(f"{qn}: serial / parallel branch vanished")
-        serial = {norm(c.func) for b in ifs[0].body for c in ast.walk(b) if isinstance(c, ast.Call)}
-        parallel = [c for b in ifs[0].orelse for c in ast.walk(b) if isinstance(c, ast.Call) and isinstance(c.func, ast.Attribute) and c.func.attr == "map"]
-        fw = prog.fn(f"{COV}.{wrapper}")
-        wcalls = [c for c in own_nodes(fw.node) if isinstance(c, ast.Call) and norm(c.func) == leaf and c.args and isinstance(c.args[0], ast.Starred)]
-        ok = leaf in serial and len(parallel) == 1 and norm(parallel[0].args[0]) == wrapper and len(wcalls) == 1
-        chk.decide(ok, "ordered-fanout", f"{fi.name}: serial branch calls {leaf}; parallel branch maps {wrapper} -> {leaf}(*args)", f"{qn}::same worker", fi.loc(ifs[0]),
-                   f"the 1-process and the N-process branch must reach the same worker {leaf}; serial calls {sorted(serial)[:6]}")
-    fp = prog.fn(f"{COV}.interval_coverages_pileup")
-    ok = any(isinstance(c, ast.Call) and norm(c.func) == "pd.concat" and norm(c.args[0]) == "chunks" and any(k.arg == "ignore_index" for k in c.keywords) for c in own_nodes(fp.node)) and \
-        any(isinstance(c, ast.Call) and norm(c.func) == "chunks.append" for c in own_nodes(fp.node))
-    chk.decide(ok, "ordered-fanout", "chunk tables are appended in map order and concatenated", f"{fp.qn}::concat", fp.loc(), "chunk results must be concatenated in submission order")
-    fa = [c for c in own_nodes(fp.node) if isinstance(c, ast.GeneratorExp) and any("to_chunks(bed_fname)" == norm(g.iter) for g in c.generators)]
-    chk.decide(len(fa) == 1 and norm(fa[0].elt) == "(bed_chunk, bam_fname, min_mapq, fasta)", "ordered-fanout", "every chunk of to_chunks(bed_fname) is mapped with the same (bam, min_mapq, fasta)", f"{fp.qn}::args", fp.loc(),
-               "parallel pileup must map (chunk, bam_fname, min_mapq, fasta) over to_chunks(bed_fname)")
     # chunker, small-scope exhaustive
     ft = prog.fn("cnvlib.parallel.to_chunks")
     tb = Table(chk, "chunker", "to_chunks: chunk sizes 1..3 x line counts 0..3c+1 (with comment lines)", ft.loc(), ft.qn)
@@ -309,6 +291,101 @@ def d5(chk, prog):
     tb.done("to_chunks loses, duplicates or reorders lines of the regions file (or yields an open / empty / oversized chunk)")
 
 
+_C = "cnvlib/coverage.py"
+
+
+class PoolStub:
+    """concurrent.futures executor: map applies the function to the items in submission order (trusted: Executor.map order)"""
+
+    def __init__(self, it, nprocs):
+        self.it, self.nprocs, self.maps = it, nprocs, 0
+
+
+def pool_hook(it, obj, name, args, kw):
+    if not isinstance(obj, PoolStub):
+        return NotImplemented
+    if name != "map":
+        raise Raised("Unordered", f"pool.{name}: only Executor.map keeps submission order")
+    obj.maps += 1
+    return [it.call(args[0], [x], {}) for x in it.iterate(args[1])]
+
+
+def d5b(chk, prog):
+    """serial and parallel read counting: same bins in the same order, the caller's min_mapq at every region_depth_count"""
+    fi = prog.fn(f"{COV}.interval_coverages_count")
+    tb = Table(chk, "ordered-fanout", "interval_coverages_count: (bin, min_mapq, alignment file, reference) reaching region_depth_count, procs=1 vs procs=3", fi.loc(), fi.qn)
+    rows = [dict(chromosome=c, start=s, end=s + 100, gene=f"g{c}{s}") for c, s in (("chr1", 0), ("chr1", 500), ("chr2", 100), ("chr3", 0), ("chr3", 300))]
+    for mq, fasta in itertools.product([0, 30], [None, "ref.fa"]):
+        traces = {}
+        for procs in (1, 3):
+            W.reset()
+            model = Model()
+            seen, opened = [], []
+            model.prims["skgenome.tabio.read_auto"] = lambda it, fname, *a, **k: make_ga("GenomicArray", rows, {}, exact=True)
+
+            def alignment_file(it, fname, mode="rb", reference_filename=None, opened=opened, **k):
+                opened.append((fname, reference_filename))
+                return Row({"filename": fname, "reference_filename": reference_filename})
+            model.ext["pysam.AlignmentFile"] = alignment_file
+            model.ext["concurrent.futures.ProcessPoolExecutor"] = lambda it, n=None, **k: PoolStub(it, n)
+
+            model.method_hooks.append(pool_hook)
+
+            def rdc(it, bam, chrom, start, end, gene, min_mapq, seen=seen):
+                if not isinstance(bam, Row):
+                    raise Raised("AttributeError", f"region_depth_count called with {bam!r} for the alignment file")
+                seen.append((chrom, repr(start), repr(end), gene, repr(min_mapq), bam.filename, bam.reference_filename))
+                return (len(seen), (chrom, start, end, gene, 0, 0))
+            model.prims[f"{COV}.region_depth_count"] = rdc
+            it = Interp(prog, model)
+            out = tb.guard(lambda: list(it.run(fi.qn, ["r.bed", "s.bam", mq, procs, fasta])), f"procs={procs} min_mapq={mq} fasta={fasta}")
+            if out is None:
+                continue
+            want = [(r["chromosome"], repr(r["start"]), repr(r["end"]), r["gene"], repr(mq), "s.bam", fasta) for r in rows]
+            counts = [x[0] for x in out]
+            tb.cell(seen == want and counts == list(range(1, len(rows) + 1)), dict(procs=procs, min_mapq=mq, fasta=fasta, reached=seen[:6], want=want[:6], yielded=counts))
+            traces[procs] = seen
+    tb.done("the read-count path does not hand every bin, in file order, with the caller's min_mapq and reference to region_depth_count (serial and parallel alike)")
+
+
+def d5c(chk, prog):
+    """serial and parallel pileup: same rows in file order, same (bam, min_mapq, fasta) at every bedcov call"""
+    fi = prog.fn(f"{COV}.interval_coverages_pileup")
+    tb = Table(chk, "ordered-fanout", "interval_coverages_pileup: rows and bedcov arguments, procs=1 vs procs=3", fi.loc(), fi.qn)
+    chunks = {"c1.bed": [("chr1", 0, 40), ("chr1", 500, 0)], "c2.bed": [("chr2", 100, 70)], "c3.bed": [("chr3", 0, 10), ("chr3", 300, 100)]}
+    for mq, fasta in itertools.product([0, 30], [None, "ref.fa"]):
+        outs = {}
+        for procs in (1, 3):
+            W.reset()
+            model = Model()
+            calls, removed = [], []
+            model.prims["cnvlib.parallel.to_chunks"] = lambda it, fname, *a, **k: list(chunks)
+            model.prims["cnvlib.parallel.rm"] = lambda it, fname, removed=removed: removed.append(fname)
+
+            def bedcov(it, bed, bam, min_mapq, fasta=None, calls=calls):
+                calls.append((bed, bam, repr(min_mapq), fasta))
+                rows = chunks[bed] if bed in chunks else [r for c in chunks.values() for r in c]
+                df = DF({"chromosome": Vec([r[0] for r in rows], aligned=True), "start": Vec([r[1] for r in rows], aligned=True),
+                         "end": Vec([r[1] + 100 for r in rows], aligned=True), "gene": Vec([f"g{r[1]}" for r in rows], aligned=True),
+                         "basecount": Vec([r[2] for r in rows], aligned=True)}, len(rows))
+                df.exact = True
+                return df
+            model.prims[f"{COV}.bedcov"] = bedcov
+            model.ext["concurrent.futures.ProcessPoolExecutor"] = lambda it, n=None, **k: PoolStub(it, n)
+            model.method_hooks.append(pool_hook)
+            it = Interp(prog, model)
+            out = tb.guard(lambda: it.run(fi.qn, ["r.bed", "s.bam", mq, procs, fasta]), f"procs={procs} min_mapq={mq} fasta={fasta}")
+            if out is None:
+                continue
+            allrows = [r for c in chunks.values() for r in c]
+            want_calls = [("r.bed", "s.bam", repr(mq), fasta)] if procs == 1 else [(c, "s.bam", repr(mq), fasta) for c in chunks]
+            got = list(zip(out.cols["chromosome"].v, out.cols["start"].v, [repr(x) for x in out.cols["depth"].v])) if isinstance(out, DF) and "depth" in out.cols else None
+            want = [(r[0], r[1], repr(Fr(r[2], 100) if r[2] else 0)) for r in allrows]
+            ok = got is not None and [(a, b) for a, b, _ in got] == [(a, b) for a, b, _ in want] and all(same(out.cols["depth"].v[i], Fr(r[2], 100)) for i, r in enumerate(allrows))
+            tb.cell(ok and calls == want_calls, dict(procs=procs, min_mapq=mq, fasta=fasta, bedcov_calls=calls, want_calls=want_calls, rows=got, want_rows=want))
+    tb.done("the pileup path does not return the bins in file order with their depths, or bedcov does not get the caller's (bam, min_mapq, fasta) (serial and parallel alike)")
+
+
 def run(chk):
     prog = chk.prog
     chk.trust("Python grammar via ast", "pysam: fetch / read.positions are 0-based; bedcov filters UNMAP, SECONDARY, QCFAIL, DUP itself and takes -Q",
@@ -318,10 +395,30 @@ def run(chk):
     d3(chk, prog)
     d4(chk, prog)
     d5(chk, prog)
+    d5b(chk, prog)
+    d5c(chk, prog)
 
 
-_C = "cnvlib/coverage.py"
 MUTANTS = [
+    dict(name="seeded C09d: _rdc_chunk parameters reordered, serial call left positional", edits=[(_C, "                (bam_fname, subr, min_mapq, fasta)\n", "                (bam_fname, subr, fasta, min_mapq)\n"), (_C, "def _rdc_chunk(bamfile, regions, min_mapq, fasta=None):", "def _rdc_chunk(bamfile, regions, fasta=None, min_mapq=0):")]),
+    # (dropping ignore_index=True is behaviour-preserving for this function: every later store is aligned on the table's own
+    #  index object, checked against pandas; so it is a twin)
+    dict(name="twin: pileup chunks concatenated without ignore_index", expect="silent", file=_C, old="table = pd.concat(chunks, ignore_index=True)", new="table = pd.concat(chunks)"),
+    dict(name="pileup chunks prepended", file=_C, old="                chunks.append(table)\n", new="                chunks.insert(0, table)\n"),
+    dict(name="parallel pileup forgets min_mapq", file=_C, old="                (bed_chunk, bam_fname, min_mapq, fasta)\n", new="                (bed_chunk, bam_fname, 0, fasta)\n"),
+    dict(name="parallel count forgets the reference", file=_C, old="                (bam_fname, subr, min_mapq, fasta)\n", new="                (bam_fname, subr, min_mapq)\n"),
+    dict(name="twin: parallel pileup refactored (list comprehension, renamed variables, extend)", expect="silent", edits=[(_C, """            args_iter = (
+                (bed_chunk, bam_fname, min_mapq, fasta)
+                for bed_chunk in to_chunks(bed_fname)
+            )
+            for bed_chunk_fname, table in pool.map(_bedcov, args_iter):
+                chunks.append(table)
+                rm(bed_chunk_fname)""", """            jobs = [(piece, bam_fname, min_mapq, fasta) for piece in to_chunks(bed_fname)]
+            for piece_fname, part in pool.map(_bedcov, jobs):
+                chunks += [part]
+                rm(piece_fname)""")]),
+    dict(name="twin: serial count passes min_mapq by keyword", expect="silent", file=_C, old="for count, row in _rdc_chunk(bamfile, subregions, min_mapq):", new="for count, row in _rdc_chunk(bamfile, subregions, min_mapq=min_mapq):"),
+    dict(name="seeded C09c: reference span instead of aligned positions", file="cnvlib/coverage.py", old="bases += sum(1 for p in read.positions if start <= p < end)", new="bases += min(read.reference_end, end) - max(read.reference_start, start)"),
     dict(name="qcfail not filtered", file=_C, old="            or read.is_qcfail\n", new=""),
     dict(name="mapq <= cut-off dropped", file=_C, old="            or read.mapq < min_mapq", new="            or read.mapq <= min_mapq"),
     dict(name="seeded C09b: bitmask also drops supplementary", file=_C, old="        return not (\n            read.is_duplicate\n            or read.is_secondary\n            or read.is_unmapped\n            or read.is_qcfail\n            or read.mapq < min_mapq\n        )", new="        return not (read.flag & 0xF04 or read.mapq < min_mapq)"),
